@@ -216,7 +216,7 @@ Section GeneralFS.
   Qed.
 
   Definition single_of (s : shell) (cs : list (list N)) (x : shell) : Prop :=
-    exists l c, In c cs /\ x = mkShell (ftype s) (region s) [l] (exps s) [c].
+    exists ft l c, In c cs /\ x = mkShell ft (region s) [l] (exps s) [c].
 
   Lemma split_fused_spec : forall m (s : shell) cs ams ka kc out, length ams = length cs ->
     exists ka' kc' out',
@@ -233,14 +233,15 @@ Section GeneralFS.
       repeat split; auto. intros [l [[] _]].
     - destruct ams as [|l ams]; [discriminate|]. cbn in Hl. injection Hl as Hl.
       cbn [split_fused]. destruct (l >? m)%Z eqn:El.
-      + destruct (IH ams ka kc (out ++ [mkShell (ftype s) (region s) [l] (exps s) [c]]) Hl)
+      + set (ft := split_function_type (ftype s) [l]).
+        destruct (IH ams ka kc (out ++ [mkShell ft (region s) [l] (exps s) [c]]) Hl)
           as [ka' [kc' [out' [Hs [Hlen [Hp [Hle [Hsub [Hout Hne]]]]]]]]].
-        exists ka', kc', (mkShell (ftype s) (region s) [l] (exps s) [c] :: out').
+        exists ka', kc', (mkShell ft (region s) [l] (exps s) [c] :: out').
         rewrite Hs, <- app_assoc. cbn. repeat split; auto.
         * apply Permutation_sym, Permutation_cons_app, Permutation_sym. exact Hp.
         * constructor.
-          -- exists l, c; split; [left|]; reflexivity.
-          -- eapply Forall_impl; [|exact Hout]. intros x [l0 [c0 [Hin ->]]]. exists l0, c0; split; [right|]; auto.
+          -- exists ft, l, c; split; [left|]; reflexivity.
+          -- eapply Forall_impl; [|exact Hout]. intros x [ft0 [l0 [c0 [Hin ->]]]]. exists ft0, l0, c0; split; [right|]; auto.
         * intros [l0 [[<-|Hin] Hl0]]; [apply Z.gtb_lt in El; lia|]. apply Hne. exists l0; auto.
       + destruct (IH ams (ka ++ [l]) (kc ++ [c]) out Hl)
           as [ka' [kc' [out' [Hs [Hlen [Hp [Hle [Hsub [Hout Hne]]]]]]]]].
@@ -248,7 +249,7 @@ Section GeneralFS.
         rewrite Hs, <- !app_assoc. cbn. repeat split; auto.
         * constructor; [|exact Hle]. rewrite Z.gtb_ltb in El. apply Z.ltb_ge in El. exact El.
         * intros c0 [<-|Hin]; [left; reflexivity|right; auto].
-        * eapply Forall_impl; [|exact Hout]. intros x [l0 [c0 [Hin ->]]]. exists l0, c0; split; [right|]; auto.
+        * eapply Forall_impl; [|exact Hout]. intros x [ft0 [l0 [c0 [Hin ->]]]]. exists ft0, l0, c0; split; [right|]; auto.
         * discriminate.
   Qed.
 
@@ -257,7 +258,7 @@ Section GeneralFS.
 
   Lemma single_of_wf : forall s x, wf_shell s -> single_of s (coefs s) x -> wf_shell x.
   Proof.
-    intros s x [Hr [[Hne Hnz] Ha]] [l [c [Hin ->]]].
+    intros s x [Hr [[Hne Hnz] Ha]] [ft [l [c [Hin ->]]]].
     unfold FSDefs.wf_shell, rect, nz_cols, am_ok in *; cbn. rewrite Forall_forall in Hr, Hnz. repeat split.
     - constructor; [auto|constructor].
     - discriminate.
@@ -281,7 +282,7 @@ Section GeneralFS.
         destruct (split_fused_spec m s (coefs s) (am s) [] [] [] Hlen)
           as [ka [kc [out' [Hsp [Hlk [Hp [Hle [Hsub [Hout Hne]]]]]]]]].
         rewrite Hsp. cbn.
-        destruct (IH (mkShell (ftype s) (region s) ka (exps s) kc :: news ++ out') Ht)
+        destruct (IH (mkShell (split_function_type (ftype s) ka) (region s) ka (exps s) kc :: news ++ out') Ht)
           as [out [Ho [Hperm [Hshape Hwfo]]]].
         exists out. split; [exact Ho|]. split; [|split].
         * eapply Permutation_trans; [exact Hperm|].
@@ -292,7 +293,7 @@ Section GeneralFS.
           apply Permutation_app_head. rewrite !app_assoc. apply Permutation_app_tail. exact Hp.
         * intros Hn. apply Hshape. constructor; [intros _; exact Hle|].
           apply Forall_app; split; [exact Hn|].
-          eapply Forall_impl; [|exact Hout]. intros x [l [c [_ ->]]] Hx. cbn in Hx. lia.
+          eapply Forall_impl; [|exact Hout]. intros x [ft [l [c [_ ->]]]] Hx. cbn in Hx. lia.
         * intros Hn Hlow. inversion Hlow as [|? ? Hls Hlt]; subst. apply Hwfo; [|exact Hlt].
           constructor; [|apply Forall_app; split; [exact Hn|]].
           -- specialize (Hne (Hls El)).
